@@ -622,11 +622,7 @@ def run_defer(c):
         else:
             to = resolve_vartype(op, twin.vartype.name)
             off = F(op["off"])
-            if twin.record.energy.dtype.kind in 'iu' and off.denominator != 1:
-                off = Fraction(1)
             offv = float(off) if off.denominator != 1 else int(off)
-            if twin.record.sample.dtype.kind in 'bu' and to == 'SPIN':
-                to = twin.vartype.name
             terms.append(f"(OChangeVt {VTC[to]} {cq(off)} {cbool(inplace)})")
             call = lambda s: s.change_vartype(to, energy_offset=offv, inplace=inplace)
         try:
